@@ -302,4 +302,34 @@ func (m *mux) reload(superSpec *supervisor.Spec, muxMapper context.MuxMapper)
   invariant[2] paths-built: forall q int :: 0 <= q && q < j ==> paths[q] != nil && allocated(paths[q]) && chainAllocated(paths[q].ipFilterChain) && (paths[q].ipFilterChain != nil ==> ipfilter.wfFilters(paths[q].ipFilterChain)) && (paths[q].ipFilter != nil ==> allocated(paths[q].ipFilter)) && paths[q].backend == specRule.Paths[q].Backend && paths[q].path == specRule.Paths[q].Path && paths[q].pathPrefix == specRule.Paths[q].PathPrefix && ((specRule.Paths[q].IPFilter == nil) <==> (paths[q].ipFilter == nil)) && (paths[q].ipFilter != nil ==> paths[q].ipFilter.spec == specRule.Paths[q].IPFilter) && pathChainOK(paths[q].ipFilterChain, spec.IPFilter, specRule.IPFilter, specRule.Paths[q].IPFilter)
   closure[1] ()
   end
+
+// ---- C17: a run-time change of maxConnections reaches the listener that is accepting connections ----
+ghost var gCapSet bool
+ghost var gCapValue int
+ghost var gCapListener int
+func (r *runtime) startServer()
+  trusted
+  flag allocates
+  modifies r.limitListener, r.server, r.server3
+func (r *runtime) closeServer()
+  trusted
+  modifies r.limitListener, r.server, r.server3
+func (r *runtime) needRestartServer(nextSpec *Spec) (yes bool)
+  trusted
+  pure
+
+func (r *runtime) reload(nextSuperSpec *supervisor.Spec, muxMapper context.MuxMapper)
+  flag allocates
+  flag frame=unchecked
+  requires r != nil && r.mux != nil && nextSuperSpec != nil
+  requires spec-of-this-kind: typeIs(nextSuperSpec.objectSpec, "*Spec") && specWF(ptr(ifaceVal(nextSuperSpec.objectSpec), "*Spec"))
+  requires current-instance: typeIs(r.mux.inst.v, "*muxInstance") && ifaceVal(r.mux.inst.v) != 0 && ptr(ifaceVal(r.mux.inst.v), "*muxInstance").spec != nil
+  requires a-listener-has-its-semaphore: r.limitListener != nil ==> r.limitListener.sem != nil && r.limitListener.sem.sem != nil
+  modifies gCapSet, gCapValue, gCapListener
+  ensures the-listener-that-is-accepting-gets-the-new-cap: ifaceVal(nextSuperSpec.objectSpec) != 0 && old(r.limitListener) != nil ==> gCapSet && gCapListener == old(ref(r.limitListener)) && gCapValue == ptr(ifaceVal(nextSuperSpec.objectSpec), "*Spec").MaxConnections
+  ensures the-spec-in-force-is-the-new-one: ifaceVal(nextSuperSpec.objectSpec) != 0 ==> r.spec == ptr(ifaceVal(nextSuperSpec.objectSpec), "*Spec") && r.superSpec == nextSuperSpec
+  ghost at entry: gCapSet := false
+  ghost at call[1] SetMaxConnection: gCapSet := true
+  ghost at call[1] SetMaxConnection: gCapValue := n
+  ghost at call[1] SetMaxConnection: gCapListener := ref(l)
 @*/
